@@ -26,7 +26,7 @@ MAXT = 5  # table names T0..T4 are dropped before every case
 # abstract syntax -> driver tokens / SQL
 # ------------------------------------------------------------------------------------------------
 # val: None | int;  opnd: ("C", i) | ("L", val);  expr: opnd | ("A", i, k)
-# pred: ("k", "t|f|u") | ("c", opnd, op, opnd) | ("n", opnd) | ("nn", opnd) | ("&", p, q) | ("or", p, q) | ("!", p)
+# pred: ("k", "t|f|u") | ("c", opnd, op, opnd) | ("n", opnd) | ("nn", opnd) | ("e", opnd, opnd) | ("&", p, q) | ("or", p, q) | ("!", p)
 # stmt: ("I", t, cols|None, src) | ("U", t, [(col, expr)], pred|None) | ("D", t, pred|None) | ("T", t)
 # src: ("V", w, rows) | ("S", s, proj|None, pred|None)
 
@@ -48,6 +48,8 @@ def tpred(p):
         return ["c", *texpr(p[1]), p[2], *texpr(p[3])]
     if k in ("n", "nn"):
         return [k, *texpr(p[1])]
+    if k == "e":
+        return ["e", *texpr(p[1]), *texpr(p[2])]
     if k in ("&", "or"):
         return [k, *tpred(p[1]), *tpred(p[2])]
     return ["!", *tpred(p[1])]
@@ -113,6 +115,14 @@ def spred(rnd, p):
         return f"{sexpr(rnd, p[1])} {kw(rnd, 'is null')}"
     if k == "nn":
         return f"{sexpr(rnd, p[1])} {kw(rnd, 'is not null')}"
+    if k == "e":   # NULL-safe equality in its three spellings
+        a, b = sexpr(rnd, p[1]), sexpr(rnd, p[2])
+        m = rnd.randrange(3)
+        if m == 0:
+            return f"{kw(rnd, 'equal_null')}({a}, {b})"
+        if m == 1:
+            return f"{a} {kw(rnd, 'is not distinct from')} {b}"
+        return f"{kw(rnd, 'not')} ({a} {kw(rnd, 'is distinct from')} {b})"
     if k == "&":
         return f"({spred(rnd, p[1])}) {kw(rnd, 'and')} ({spred(rnd, p[2])})"
     if k == "or":
@@ -160,6 +170,8 @@ def gpred(rnd, arity, depth=0):
             return ("k", rnd.choice("tfu"))
         if q < 0.25:
             return (rnd.choice(["n", "nn"]), gopnd(rnd, arity))
+        if q < 0.45:
+            return ("e", gopnd(rnd, arity), gopnd(rnd, arity))
         return ("c", gopnd(rnd, arity), rnd.choice(list(OPS)), gopnd(rnd, arity))
     if r < 0.65:
         return ("&", gpred(rnd, arity, depth + 1), gpred(rnd, arity, depth + 1))
@@ -297,6 +309,9 @@ def sweep_cases():
             out.append((tables, [("I", tgt, None, ("S", src, None, p)), ("I", tgt, [1], ("S", src, [("C", 0)], p)), ("T", tgt), ("T", tgt)]))
             if n:
                 out.append((tables, [("I", tgt, None, ("V", 2, [[1, None]] * n)), ("I", src, [1, 0], ("V", 2, [[None, 7]] * n))]))
+            # NULL-safe (in)equality against a column with NULLs: C1 is NULL on the odd rows
+            out.append((tables, [("U", src, [(0, ("A", 0, 10))], ("!", ("e", ("C", 1), ("L", n)))), ("D", src, ("!", ("e", ("L", n), ("C", 1))))]))
+            out.append((tables, [("D", src, ("or", ("e", ("C", 1), ("L", None)), ("&", ("!", ("e", ("C", 1), ("C", 0))), ("k", "u"))))]))
     return out
 
 
